@@ -210,6 +210,9 @@ class WorldDriver:
         ctx = Ctx()
         ctx.hits = collections.Counter()
         ctx.log = []
+        if not getattr(type(self), '_probed', False):
+            type(self)._probed = True     # once per process is enough
+            self._isolation_probe()
         ctx.world = desper.World()
         ctx.rows = {}            # entity -> {type name: component}
         ctx.pending = set()
@@ -231,6 +234,41 @@ class WorldDriver:
                 ctx.world.add_processor(proc)
                 ctx.procs[proc.label] = proc
         return ctx
+
+    @staticmethod
+    def _isolation_probe():
+        """A fresh World inherits nothing from another, used, World."""
+        used = desper.World()
+        log = []
+        e = used.create_entity(A('probe-a'), H('probe-h', log))
+        used.add_processor(RecProc(log))
+        used.delete_entity(e)
+        used.dispatch_enabled = False
+        used.create_entity(H('probe-h2', log))
+        del log[:]
+        fresh = desper.World()
+        problems = []
+        if fresh.entities or fresh.get(A) or fresh.get(H):
+            problems.append(f'entities {fresh.entities}, get(A) {fresh.get(A)}')
+        if fresh.processors:
+            problems.append(f'processors {fresh.processors}')
+        if fresh.entity_exists(e) or fresh.get_components(e):
+            problems.append('entity of the other world exists')
+        if not fresh.dispatch_enabled:
+            problems.append('dispatching is disabled')
+        fresh.dispatch_enabled = True
+        try:
+            fresh.process(1)
+        except Exception as exc:
+            problems.append(f'process raised {exc!r}')
+        if log:
+            problems.append(f'callbacks {log}')
+        if problems:
+            raise Violation('fresh_world_is_independent',
+                            'a World created while another one holds '
+                            'entities, a pending deletion, a processor and '
+                            'postponed callbacks is not empty: '
+                            + '; '.join(problems), isolation=True)
 
     def new(self, ctx, type_name):
         ctx.counter += 1
